@@ -782,13 +782,13 @@ def createImportsString (env : Env) : G String := do
   if s.imports.isEmpty then return ""
   let lines := s.imports.map fun imp =>
     let parts := splitDot imp
-    let from_ := escapePath (convertName (joinWith "." (dropLast' parts)) env.safe)
+    let from_ := escapePath (convertPath (joinWith "." (dropLast' parts)) env.safe)
     let name := escapeKeyword (convertName (lastD "" parts) env.safe)
     "from " ++ from_ ++ " import " ++ name
   pure ("\n" ++ joinWith "\n" (sortStrings lines) ++ "\n")
 
 def packageHeader (env : Env) (packageInfo : String) : String :=
-  let camel := convertName packageInfo env.safe
+  let camel := convertPath packageInfo env.safe
   (if packageInfo != camel then "@PythonModule(\"" ++ packageInfo ++ "\")\n" else "")
     ++ "package " ++ escapePath camel ++ "\n"
 
